@@ -14,6 +14,7 @@ import pandas as pd
 import fsic
 import fsic.tools as tools
 from fsic.core import BaseLinker, VectorContainer
+from fsic.extensions import AliasMixin, ProgressBarMixin, TracerMixin
 
 from .. import spans
 from ..core.observe import canon
@@ -26,7 +27,8 @@ TECHNIQUE = 'bounded exhaustive enumeration of models x span types x flag lattic
 RULE = ('4 model scripts x {unsolved, solved} x extra variables (int, bool, str, float, _internal) x 17 span types (pandas spans carry a name) x 8 flag combinations for model_to_dataframe/'
         'to_dataframe, from_dataframe of each data table; linkers with 0..2 submodels x 8 flag combinations; VectorContainer.to_dataframe; '
         'symbols_to_dataframe/dataframe_to_symbols over every script of the program catalogue (all strata). '
-        'non-trivial = export with at least one data column / symbol list with at least one symbol')
+        'non-trivial = export with at least one data column / symbol list with at least one symbol'
+        ' The model export cases again on a class stacking ProgressBar/Alias/Tracer mixins with aliases defined (not asked for).')
 ASSUMPTIONS = [
     'index compared as list(df.index) == list(span) (tuple labels become a MultiIndex)',
     'from_dataframe is compared on the model variables (NAMES); string/bool extras are not constructor inputs',
@@ -42,9 +44,20 @@ SCRIPTS = [
 _CLS = {}
 
 
+_MIXED = [False]   # (set per case: the same class with every mixin of the library stacked on it, aliases defined)
+
+
 def model_class(i):
     if i not in _CLS:
         _CLS[i] = fsic.build_model(fsic.parse_model(SCRIPTS[i]))
+    if _MIXED[0]:
+        if ('mixed', i) not in _CLS:
+            base = _CLS[i]
+            names = list(base.NAMES)
+            aliases = {'alias_of_%d' % k: name for k, name in enumerate(names[:2])}
+            aliases.update({'hid': '_hidden', 'again': 'alias_of_0'} if names else {'hid': '_hidden'})
+            _CLS[('mixed', i)] = type('Mixed%d' % i, (ProgressBarMixin, AliasMixin, TracerMixin, base), {'ALIASES': aliases})
+        return _CLS[('mixed', i)]
     return _CLS[i]
 
 
@@ -141,6 +154,14 @@ def _eq(x, y):
 
 
 def run_model_case(case):
+    _MIXED[0] = bool(case.get('mixins'))
+    try:
+        return _run_model_case(case)
+    finally:
+        _MIXED[0] = False
+
+
+def _run_model_case(case):
     i, kind, n, solved = case['i'], case['span'], case['n'], case['solved']
     status, iterations, internal = case['flags']
     m, labels = make_model(i, kind, n, solved)
@@ -167,6 +188,20 @@ def run_model_case(case):
         if canon(m2[name]) != canon(m[name]):
             out.append(('from_dataframe:values', m[name].tolist(), m2[name].tolist(), 'values of %s not reproduced' % name))
             return out
+    # a variable that is missing in every period (all NaN) is data too: it comes back as NaN, not as the default value
+    names = list(model_class(i).NAMES)
+    if names and len(labels):
+        hollow = data.copy()
+        hollow[names[0]] = np.nan
+        try:
+            m3 = model_class(i).from_dataframe(hollow)
+        except Exception as e:
+            return [('from_dataframe:all-nan-column:%s' % type(e).__name__, 'a model', repr(e)[:200], 'from_dataframe failed on a table with an all-NaN column')]
+        for name in names:
+            want = np.full(len(labels), np.nan) if name == names[0] else np.asarray(m[name], dtype=float)
+            if canon(np.asarray(m3[name], dtype=float)) != canon(want):
+                out.append(('from_dataframe:all-nan-column', want.tolist(), np.asarray(m3[name]).tolist(), 'values of %s not reproduced when %s is NaN in every period' % (name, names[0])))
+                return out
     return out
 
 
@@ -310,6 +345,13 @@ def run_block(block, tier, seed):
                         acc.nontrivial += 1
                         for key, exp, obs, what in guarded(run_model_case, case):
                             acc.violation(key, case, exp, obs, what)
+                        if solved is False or n <= 4:
+                            # the same export from a class that stacks the library's mixins (aliases defined, not asked for: the table is the same)
+                            case = dict(case, mixins=True)
+                            acc.evaluations += 1
+                            acc.nontrivial += 1
+                            for key, exp, obs, what in guarded(run_model_case, case):
+                                acc.violation(key + ':stacked-mixins', case, exp, obs, what)
             for i in range(len(SCRIPTS)):
                 for order in ('forward', 'backward'):
                     case = dict(kind='sequence', i=i, span=kind, n=n, solved=True, order=order, script=SCRIPTS[i])
